@@ -95,6 +95,21 @@ def check(run):
                 b = complex_powers(z, M, buf)
                 if not np.shares_memory(b, buf) or not np.array_equal(b.reshape(a.shape), a):
                     run.violation("out-array-not-used-or-differs", "complex_powers", inp, "same values written into supplied array", "differs")
+                # supplied output arrays that are not C-contiguous (a block of columns of a wider workspace, every other row of a taller one, Fortran
+                # order), holding nan beforehand: the supplied array itself must hold the powers afterwards, and so must what is returned
+                n = int(z.size)
+                for oname, mk in (("columns-of-wider", lambda: np.full((n, M + 4), np.nan + 0j)[:, 1:M + 2]), ("every-other-row", lambda: np.full((2 * n + 1, M + 1), np.nan + 0j)[::2][:n]),
+                                  ("fortran-order", lambda: np.full((n, M + 1), np.nan + 0j, order="F"))):
+                    buf = mk()
+                    assert buf.shape == (n, M + 1)
+                    run.gap_case("shapes", (shape, layout, M, oname), f"out|{oname}")
+                    try:
+                        b = complex_powers(z, M, buf)
+                    except Exception as e:
+                        run.violation("out-array-rejected", "complex_powers", {**inp, "out_layout": oname}, "powers written into the supplied array", repr(e))
+                        continue
+                    if not np.array_equal(buf.reshape(a.shape), a) or b.shape != a.shape or not np.array_equal(b, a):
+                        run.violation("out-array-not-used-or-differs", "complex_powers", {**inp, "out_layout": oname}, "same values written into supplied array", "differs")
                 for idx in np.ndindex(*shape):
                     if not np.array_equal(a[idx], complex_powers(complex(z[idx]), M)):
                         run.violation("vectorised-differs-from-scalar", "complex_powers", {**inp, "index": list(idx)}, "powers of z[index]", "differs")
@@ -110,6 +125,13 @@ def replay(body):
         z = np.array([complex(*v) for v in inp["z"]]).reshape(inp["z_shape"])
         if inp.get("layout") in ("F", "transposed-view", "permuted-axes"):
             z = np.asfortranarray(z)
+        if "out_layout" in inp:
+            n, M = int(z.size), inp["M"]
+            buf = {"columns-of-wider": lambda: np.full((n, M + 4), np.nan + 0j)[:, 1:M + 2], "every-other-row": lambda: np.full((2 * n + 1, M + 1), np.nan + 0j)[::2][:n],
+                   "fortran-order": lambda: np.full((n, M + 1), np.nan + 0j, order="F")}[inp["out_layout"]]()
+            complex_powers(z, M, buf)
+            print("supplied output array after the call:", buf.tolist(), " without output array:", complex_powers(z, M).reshape(n, M + 1).tolist())
+            return 0
         a = complex_powers(z, inp["M"])
         bad = [idx for idx in np.ndindex(*z.shape) if not np.array_equal(a[idx], complex_powers(complex(z[idx]), inp["M"]))]
         print("indices whose row is not the powers of z[index]:", bad)
